@@ -42,12 +42,26 @@ Definition evaluate_conditions (v : Z) (c : cond) (thr : Z) : bool :=
 Definition evaluate_result (vals : list Z) (c : cond) (thr : Z) : bool :=
   existsb (fun v => evaluate_conditions v c thr) vals.
 
-(* ---- history table: rows of one alert, newest first; only the state column is read ---- *)
-Definition history := list astate.
+(* ---- history table: rows of one alert, newest first.  A row is either the record of an
+   evaluation (its state) or the record of a configuration change ("Config Modified", written by
+   ProcessUpdateAlertRequest with the zero AlertState). ---- *)
+Inductive hrow := HEval (s : astate) | HConfig.
+Definition history := list hrow.
+
+(* GetAlertHistoryByAlertID with EvaluationsOnly: event_description <> "Config Modified" *)
+Fixpoint eval_rows (h : history) : list astate :=
+  match h with
+  | [] => []
+  | HEval s :: r => s :: eval_rows r
+  | HConfig :: r => eval_rows r
+  end.
+
+(* the state column as the PRE-FIX window check read it: a config row has AlertState 0 *)
+Definition row_state (r : hrow) : astate := match r with HEval s => s | HConfig => Inactive end.
 
 (* the newest n rows exist and all are Pending or Firing
-   (GetAlertHistoryByAlertID Limit=n DESC; len < n -> false; loop) *)
-Fixpoint window_ok (n : N) (h : history) : bool :=
+   (Limit=n DESC; len < n -> false; loop) *)
+Fixpoint window_ok (n : N) (h : list astate) : bool :=
   if (n =? 0)%N then true else
   match h with
   | [] => false
@@ -55,13 +69,22 @@ Fixpoint window_ok (n : N) (h : history) : bool :=
   end.
 
 (* shouldUpdateAlertStateToFiring.  Go: EvalWindow / EvalInterval in uint64
-   (EvalInterval = 0 would panic; creation rejects window < interval, the model's N.div gives 0). *)
+   (EvalInterval = 0 would panic; creation rejects window < interval, the model's N.div gives 0).
+   The previous N-1 EVALUATIONS are read (config-change rows are skipped). *)
 Definition should_fire (window interval : N) (h : history) (cur : astate) : bool :=
   if negb (pending_or_firing cur) then false else
   let n := (window / interval)%N in
   if (n =? 0)%N then false else
   if (n =? 1)%N then true else
-  window_ok (n - 1) h.
+  window_ok (n - 1) (eval_rows h).
+
+(* PRE-FIX: the newest N-1 rows of any kind were read *)
+Definition should_fire_prefix (window interval : N) (h : history) (cur : astate) : bool :=
+  if negb (pending_or_firing cur) then false else
+  let n := (window / interval)%N in
+  if (n =? 0)%N then false else
+  if (n =? 1)%N then true else
+  window_ok (n - 1) (map row_state h).
 
 (* ---- notification_details row ---- *)
 Record notif := mkNotif {
@@ -110,7 +133,7 @@ Definition handle_condition (now : Z) (matched deliver : bool) (a : alert) : ale
   let attempt := match new with Firing | Normal => true | _ => false end in
   let sent := attempt && should_send new (a_notif a) (a_silence a) now && deliver in
   let nf := if sent then mkNotif new (Some now) (n_cooldown (a_notif a)) else a_notif a in
-  (mkAlert new (a_window a) (a_interval a) (a_silence a) (new :: a_hist a) nf (a_evals a + 1)%N,
+  (mkAlert new (a_window a) (a_interval a) (a_silence a) (HEval new :: a_hist a) nf (a_evals a + 1)%N,
    if sent then Some new else None).
 
 (* events of an alert's life *)
@@ -125,7 +148,7 @@ Definition step (deliver : bool) (a : alert) (e : event) : alert * option (Z * a
     let '(a', s) := handle_condition t m deliver a in
     (a', match s with Some k => Some (t, k) | None => None end)
   | Update w i =>
-    (mkAlert (a_state a) w i (a_silence a) (Inactive :: a_hist a) (a_notif a) (a_evals a), None)
+    (mkAlert (a_state a) w i (a_silence a) (HConfig :: a_hist a) (a_notif a) (a_evals a), None)
   | Silence m =>
     (mkAlert (a_state a) (a_window a) (a_interval a) m (a_hist a) (a_notif a) (a_evals a), None)
   end.
@@ -141,6 +164,21 @@ Fixpoint run_from (deliver : bool) (evs : list event) (a : alert) (sent : list (
 
 Definition run (deliver : bool) (evs : list event) (a : alert) : alert * list (Z * astate) :=
   run_from deliver evs a [].
+
+(* PRE-FIX state machine (documentation): same, with the pre-fix window check; state only *)
+Definition step_prefix (a : alert) (e : event) : alert :=
+  match e with
+  | Eval t m =>
+    let new :=
+      if m then
+        (if should_fire_prefix (a_window a) (a_interval a) (a_hist a) Pending then Firing else Pending)
+      else Normal in
+    mkAlert new (a_window a) (a_interval a) (a_silence a) (HEval new :: a_hist a) (a_notif a) (a_evals a + 1)%N
+  | _ => fst (step true a e)
+  end.
+
+Fixpoint run_prefix (evs : list event) (a : alert) : alert :=
+  match evs with [] => a | e :: r => run_prefix r (step_prefix a e) end.
 
 (* trace: per event the state after it and the notification kind sent by it (0 = none) *)
 Fixpoint trace (deliver : bool) (evs : list event) (a : alert) : list (N * N) :=
